@@ -7,6 +7,7 @@ A plan applies to the next accepted connection:
     s2c_stall = k     deliver frames before the k-th, then deliver nothing more (connection stays open)
 Relay.mute_s2c = True withholds everything sent to the client from now on, on connections already open (replies lost on a
 connection that has been used successfully before).
+Relay.hold_s2c = True delays instead: what the upstream sends is kept and delivered when the switch is cleared.
 The relay records what it delivered (bytes and complete frames, decoded by vlib.refcodec framing).
 """
 from __future__ import annotations
@@ -26,6 +27,7 @@ class Relay:
         self.plans = []             # one per upcoming connection; empty => transparent
         self.records = []           # one per handled connection
         self.stop = False
+        self.hold_s2c = False       # live switch: while True, what the upstream sends is kept back; it is delivered when the switch is cleared (a slow peer)
         self.mute_s2c = False       # live switch: while True, nothing is forwarded to the client on any connection (they stay open)
         self.thread = threading.Thread(target=self._accept, daemon=True)
         self.thread.start()
@@ -60,9 +62,20 @@ class Relay:
         s2c_frames_seen = 0
         delivered = b''
         stalled = False
+        held = b''                  # upstream bytes kept back while hold_s2c is set
         try:
             while not self.stop and not rec.get('kill'):
-                r, _, _ = select.select([c, u], [], [], 0.2)
+                r, _, _ = select.select([c, u], [], [], 0.05 if held else 0.2)
+                if held and not self.hold_s2c:
+                    # the delay is over: what the upstream sent meanwhile is delivered now, late
+                    try:
+                        c.sendall(held)
+                        delivered += held
+                        rec['s2c_bytes'] += len(held)
+                        rec['s2c_late'] = rec.get('s2c_late', 0) + len(held)
+                    except OSError:
+                        rec['s2c_late_undeliverable'] = rec.get('s2c_late_undeliverable', 0) + len(held)
+                    held = b''
                 if c in r:
                     d = c.recv(65536)
                     if not d:
@@ -86,6 +99,9 @@ class Relay:
                         break
                     rec['s2c_total_seen'] += len(d)
                     if stalled or self.mute_s2c:
+                        continue
+                    if self.hold_s2c:
+                        held += d
                         continue
                     cut = plan.get('s2c_cut')
                     if cut is not None:
